@@ -86,10 +86,12 @@ class System:
         self.star = t['build_world']('SimStar', copy.deepcopy(STAR_CFG))
         self.world = t['build_world'](world_config(cfg)['name'], world_config(cfg))
         self.worlds = [self.world]
-        if cfg.get('n_bodies', 1) >= 2:
+        for bi in range(1, cfg.get('n_bodies', 1)):
             c2 = copy.deepcopy(SECOND_CFG)
+            c2['name'] = 'SimCompanion' if bi == 1 else 'SimCompanion%d' % bi
+            c2['mass'] = SECOND_CFG['mass'] * (1.0 + 0.37 * (bi - 1))
             c2['force_spin_sync'] = bool(cfg.get('sync2', True))
-            self.worlds.append(t['build_world']('SimCompanion', c2))
+            self.worlds.append(t['build_world'](c2['name'], c2))
         if cfg['host'] == 'star':
             self.host = self.star
             self.orbit = t['PhysicsOrbit'](self.star, tidal_host=self.star, tidal_bodies=list(self.worlds), star_host=True)
@@ -123,6 +125,9 @@ class System:
         w, o = (self.host if tgt == 'host' else self.worlds[tgt % len(self.worlds)]), self.orbit
         kind = op['op']
         a = {k: self.value(v, n) for k, v in op.get('args', {}).items()}
+        if kind == 'o.set_host_tide_raiser':
+            o.set_host_tide_raiser(self._signature(self.worlds[op['body'] % len(self.worlds)], op.get('sig')))
+            return None
         if kind == 'o.set_states':
             sigs = [self._signature(self.worlds[t % len(self.worlds)], op.get('sig')) for t in op['targets']]
             plural = {'eccentricity': 'eccentricities', 'semi_major_axis': 'semi_major_axes',
